@@ -341,7 +341,7 @@ def thread_workload(ctx):
 
     def work(job, out):
         """The calls one thread makes; every result is reduced to a fingerprint."""
-        for key in ("own", "shared"):
+        for key in ("own", "shared")[: (2 if job.get("both", True) else 1)]:
             text = job[key]
             try:
                 d = mappyfile.loads(text, include_comments=True, include_position=(key == "own"))
@@ -365,12 +365,44 @@ def thread_workload(ctx):
             except Exception as ex:
                 out.append(("bad", "loads", type(ex).__name__))
 
-    # sequential reference
+    shared_root = mappyfile.loads(shared)
+    shared_root = shared_root[0] if isinstance(shared_root, list) else shared_root
+
+    def work_same(job, out):
+        """Phase B: every thread makes the SAME calls on the SAME dictionary with the SAME versions at the same moment."""
+        for rep in range(5):
+            for ver in same_versions + [job["version"]]:
+                try:
+                    msgs = mappyfile.validate(shared_root, version=ver)
+                    out.append((f"validate@{ver}#{rep}", sorted(m["message"].replace("ERROR: Invalid value in ", "") for m in msgs)))
+                except Exception as ex:
+                    out.append((f"validate@{ver}#{rep}", "exc:" + type(ex).__name__))
+            try:
+                out.append((f"dumps#{rep}", h(mappyfile.dumps(shared_root, quote="'"))))
+            except Exception as ex:
+                out.append((f"dumps#{rep}", "exc:" + type(ex).__name__))
+
+    # sequential reference for phase A; for phase B the expectation is INDEPENDENT of mappyfile (mf/schemamodel.py) and the
+    # versions were never asked before in this process, so the first pruning of each versioned schema happens concurrently
+    from .. import schemamodel
+    pool = [4.8, 5.2, 5.4, 5.6, 6.0, 6.2, 7.0, 7.2, 7.4]
+    same_versions = r.sample(pool, 3)
     ref = []
+    ref_same = []
     for job in jobs:
         o = []
         work(job, o)
         ref.append(o)
+    ref_dumps = h(mappyfile.dumps(shared_root, quote="'"))
+    for job in jobs:
+        o2 = []
+        for rep in range(5):
+            for ver in same_versions + [job["version"]]:
+                errs = schemamodel.errors(shared_root, "map", ver)
+                o2.append((f"validate@{ver}#{rep}", sorted(n for _, n, _ in schemamodel.error_targets(shared_root, errs))))
+            o2.append((f"dumps#{rep}", ref_dumps))
+        ref_same.append(o2)
+    shared_fp = core.fp(shared_root)
     old = sys.getswitchinterval()
     inj = trace.YieldInjector(os.path.join(core.REPO, "mappyfile"), p=0.01, seed=ctx.seed * 100 + ctx.shard)
     try:
@@ -378,11 +410,18 @@ def thread_workload(ctx):
         inj.start()
         for rnd in range(rounds):
             outs = [[] for _ in jobs]
+            outs_same = [[] for _ in jobs]
             barrier = threading.Barrier(len(jobs))
+            barrier2 = threading.Barrier(len(jobs))
 
             def runner(i):
                 barrier.wait()
                 work(jobs[i], outs[i])
+                try:
+                    barrier2.wait(timeout=600)
+                except threading.BrokenBarrierError:
+                    pass
+                work_same(jobs[i], outs_same[i])
 
             ths = [threading.Thread(target=runner, args=(i,)) for i in range(len(jobs))]
             t0 = time.time()
@@ -400,6 +439,15 @@ def thread_workload(ctx):
                     d = [(a, b) for a, b in zip(got, want) if a != b][:3]
                     res.violation("concurrent-result-differs-from-sequential", {"part": "threads", "thread": i, "round": rnd, "threads": len(jobs),
                                                                                 "text": jobs[i]["own"][:2000]}, d, None)
+            for i, (got, want) in enumerate(zip(outs_same, ref_same)):
+                res.count("thread_results_compared", len(want))
+                res.count("same_input_same_version_calls", len(want))
+                if got != want:
+                    d = [(a, b) for a, b in zip(got, want) if a != b][:3]
+                    res.violation("concurrent-result-differs-from-sequential", {"part": "threads-same-input", "thread": i, "round": rnd,
+                                                                                "threads": len(jobs), "text": shared[:2000]}, d, None)
+            if core.fp(shared_root) != shared_fp:
+                res.violation("shared-dictionary-modified-by-concurrent-pure-calls", {"part": "threads-same-input", "round": rnd}, None, None)
             res.count("thread_rounds")
     finally:
         inj.stop()
@@ -409,7 +457,7 @@ def thread_workload(ctx):
     res.count("yields_injected", inj.injected)
     res.maximum("distinct_switch_sites", len(inj.sites))
     res.maximum("threads", nthreads)
-    for a, b in list(inj.sites)[:400]:
+    for a, b in list(inj.sites)[:400]:  # (file, line) -> (file, line)
         res.seen("switch-sites", f"{a[0]}:{a[1]}->{b[0]}:{b[1]}")
     if len(res.samples) < 2:
         res.sample({"part": "threads", "threads": nthreads, "switches_observed": inj.switches,
@@ -420,7 +468,7 @@ def run(ctx):
     tmp = tempfile.mkdtemp(prefix="mf-c12-")
     try:
         # threads first: the purity contracts wrap the public functions and would serialise fingerprinting into the threads
-        if not ctx.quick or ctx.shard % 2 == 0:
+        if not ctx.quick or ctx.shard % 4 == 0:
             thread_workload(ctx)
         reuse_workload(ctx)
         purity_workload(ctx, tmp)
